@@ -1303,7 +1303,7 @@ pub fn run_history(cfg: &SeqCfg) -> SeqOut {
     let witness = run.witness();
     let focus = cfg.focus;
     let Run { sut, mut findings, mut counts, critical, sig, .. } = run;
-    if let Err(waited) = sut.finish() {
+    if let Err(waited) = sut.finish_or_leak() {
         if findings.is_empty() {
             match waited {
                 Waited::Deadlock(description) => findings.push(Finding {
